@@ -103,6 +103,18 @@ def run_units(ctx):
         ctx.case(key=("unit", arg), nontrivial=any(x not in (None, False) for x in t),
                  cls=f"unit:cert={h2lib.CERT[t[0]]}:chk={t[1]}:ctx={int(t[6])}:{real.split('/')[0][:8]}",
                  sample={"sslopt": sslopt_arg(so), "env": env, "real": real} if len(ctx.samples) < 4 and t[0] is not None and t[4] else None)
+    # address-literal hosts (IPv4, IPv6): the same policy, the literal is the name that is checked
+    for host in ("127.0.0.1", "10.1.2.3", "::1", "fe80::1", "1.2.3.4.example"):
+        for t in itertools.product(CERTS, CHECKS, [None], [None], [None], SNIS[:2], [False]):
+            so, env, isfile, isdir = mk(*t)
+            real, net = real_policy(so, env, isfile, isdir, host)
+            arg = f"{sslopt_arg(so)} {tlsenv_arg(env, isfile, isdir)} {hx(host)}"
+            lines_m.append("m-tls-policy " + arg)
+            lines_s.append("s-tls-policy " + arg)
+            obs.append(real)
+            ins.append({"sslopt": sslopt_arg(so), "env": env, "isfile": list(isfile), "isdir": list(isdir), "host": host,
+                        "tuple": [str(x) for x in t]})
+            ctx.case(key=("unit-ip", arg), nontrivial=True, cls=f"unit:address-literal-host:cert={h2lib.CERT[t[0]]}:chk={t[1]}")
     # the same products with `ssl_version` naming a legacy protocol constant (such a context STARTS unverified):
     # the policy must be what it is without the option
     import warnings
